@@ -7,7 +7,9 @@ from eudoxia.workload.workload import WorkloadTrace, PipelineArrival
 
 LAW_NAMES = ["const", "log", "sqrt", "linear3", "linear7", "squared", "exp"]
 # M8: numeric cells cross into C code (csv, repr/float): values come from this menu
-MENU = [0.0, 1.0, 15.0, 37.5, 0.1, 1e-9, 123456789.125, 1e300, 5e-324, 2.0]
+MENU = [0.0, 1.0, 15.0, 37.5, 0.1, 1e-9, 123456789.125, 1e300, 5e-324, 2.0,
+        # doubles whose shortest round-tripping decimal needs 16 or 17 significant digits, and the extremes
+        0.30000000000000004, 1 / 3, 2 ** 0.5, 33.333333333333336, 1.7976931348623157e308, 2.2250738585072014e-308]
 INT_MENU = [0, 1, 15, 40]
 
 
